@@ -156,7 +156,49 @@ fn idempotence(cfg: &Cfg, rep: &mut Report, maxlen: usize) {
     }}
 }
 
+/// seeded random views of length 8..=90 with long runs of missing values, steps 1, 2, -1
+fn large_views(cfg: &Cfg, rep: &mut Report) {
+    let count = if cfg.thorough { 3000 } else { 500 };
+    let mut rng = Lcg(cfg.seed.wrapping_mul(2654435761).wrapping_add(17));
+    for k in 0..count {
+        let n = 8 + rng.below(83);
+        // runs: alternate blocks of present / missing with random block lengths up to 40
+        let mut pat: Vec<bool> = vec![];
+        let mut miss = rng.below(2) == 0;
+        while pat.len() < n { let l = 1 + rng.below(if k % 3 == 0 { 40 } else { 6 }); for _ in 0..l { if pat.len() < n { pat.push(miss); } } miss = !miss; }
+        for step in [1isize, 2, -1] {
+            let case = format!("large;len={};step={};missing={}", n, step, pat.iter().map(|b| if *b { '1' } else { '0' }).collect::<String>());
+            if !rep.want(cfg, &case) { continue; }
+            let span = (n - 1) * step.unsigned_abs() + 1;
+            let mut parent = Array1::from_elem(span + 2, -777.0f64);
+            let phys = |i: usize| -> usize { if step > 0 { 1 + i * step as usize } else { 1 + (n - 1 - i) * step.unsigned_abs() } };
+            for i in 0..n { parent[phys(i)] = if pat[i] { f64::NAN } else { i as f64 + 0.5 }; }
+            let before: Vec<u64> = parent.iter().map(|x| x.to_bits()).collect();
+            let view = parent.slice_mut(s![1..1 + span;step]);
+            let r = guarded(move || <f64 as MaybeNan>::remove_nan_mut(view).iter().map(|x| x.raw()).collect::<Vec<f64>>());
+            let mut want: Vec<f64> = (0..n).filter(|i| !pat[*i]).map(|i| i as f64 + 0.5).collect();
+            match r {
+                Err(m) => rep.fail_p(cfg, &case, "C04,C14", "remove_nan_mut panicked", json!({"panic": m})),
+                Ok(mut got) => {
+                    got.sort_by(|a, b| a.partial_cmp(b).unwrap_or(std::cmp::Ordering::Equal)); want.sort_by(|a, b| a.partial_cmp(b).unwrap());
+                    if got.len() != want.len() || got.iter().zip(&want).any(|(a, b)| a.to_bits() != b.to_bits()) {
+                        rep.fail_p(cfg, &case, "C04,C14,C20", "returned elements are not the non-missing input elements", json!({"got_len": got.len(), "want_len": want.len()}));
+                    }
+                    let after: Vec<u64> = parent.iter().map(|x| x.to_bits()).collect();
+                    let inside: Vec<usize> = (0..n).map(phys).collect();
+                    if (0..parent.len()).any(|q| !inside.contains(&q) && after[q] != before[q]) { rep.fail_p(cfg, &case, "C03,C04", "parent element outside the view changed", json!({})); }
+                    let (mut a, mut b): (Vec<u64>, Vec<u64>) = (inside.iter().map(|q| after[*q]).collect(), inside.iter().map(|q| before[*q]).collect());
+                    a.sort(); b.sort();
+                    if a != b { rep.fail_p(cfg, &case, "C03,C04", "the view no longer holds the multiset it held before", json!({})); }
+                }
+            }
+            rep.eval(&case, true);
+        }
+    }
+}
+
 pub fn nanview(cfg: &mut Cfg, rep: &mut Report) {
+    large_views(cfg, rep);
     let maxlen = if cfg.thorough { 6 } else { 4 };
     rep.bound = format!("views of length 0..={} with steps +-1,+-2,+-3 at offsets 0 and 3 inside a 26-element guarded parent, every missing-value pattern, element types f32 f64 Option<u8..u128,i8..i128,N32,N64>", maxlen);
     one_type::<f64>(cfg, rep, maxlen);
